@@ -4,9 +4,18 @@ From Coq Require Export NArith List Bool.
 Export ListNotations.
 Open Scope N_scope.
 
-Definition W : N := 2 ^ 64.
-Definition wrap (x : N) : N := x mod W.
+(** [W] = 2^64 and the masks are written as literals, and reduction modulo a power of two as a mask,
+    so that the extracted oracle does not recompute a power and a division at every operation;
+    [wrap_mod] gives the arithmetic reading used by all proofs. *)
+Definition W : N := 18446744073709551616.
+Definition mask64 : N := 18446744073709551615.
+Definition wrap (x : N) : N := N.land x mask64.
 Definition u8 (x : N) : N := x mod 256.
+Lemma W_pow : W = 2 ^ 64. Proof. reflexivity. Qed.
+Lemma wrap_mod x : wrap x = x mod W.
+Proof. unfold wrap. change mask64 with (N.ones 64). rewrite N.land_ones. reflexivity. Qed.
+Lemma u8_mod x : u8 x = x mod 256.
+Proof. reflexivity. Qed.
 
 (** [x << s] for a [uint64] [x]; Go gives 0 once the count reaches the width. *)
 Definition shl (x s : N) : N := if 64 <=? s then 0 else wrap (N.shiftl x s).
